@@ -5,6 +5,7 @@ import Noodles.Cram.Rans4x8
 import Noodles.Cram.Nx16
 import Noodles.Cram.DriverC08Tok
 import Noodles.Cram.DriverC08Order1
+import Noodles.Cram.DriverC08Aac
 /-! Line-protocol handler for the CRAM integer codings and rANS 4x8 order 0 (`c08 …`). -/
 namespace Noodles.Cram.DriverC08
 open Noodles.Wire Noodles.Cram.Num Noodles.Cram
@@ -75,6 +76,6 @@ def handle : List String → String
       | .error .order1 => "unsupported-order-1"
       | .error .nested => "unsupported-nested"
     | _, _ => "bad-op"
-  | ws => ((DriverC08Tok.handle? ws) <|> (DriverC08Order1.handle? ws)).getD "bad-op"
+  | ws => ((DriverC08Tok.handle? ws) <|> (DriverC08Order1.handle? ws) <|> (DriverC08Aac.handle? ws)).getD "bad-op"
 
 end Noodles.Cram.DriverC08
